@@ -410,6 +410,8 @@ def run(ctx):
     control_values_representation_rule(ctx, 'C04.g')
     give_up_values_rule(ctx, 'C04.h')
     control_values_are_ints_rule(ctx, 'C04.i')
+    wrapper_shape_rule(ctx, 'C04.j')
+    ctx.decided.append('C04.j gate wrappers that size themselves from the wrapped gate also take their qid shape from it')
     ctx.decided.append('C04.i the constructors of the control-value classes store plain ints (the stored values are used as numpy indices, where a bool is a mask)')
     ctx.decided.append('C04.h protocol functions exclude both documented give-up values (None and NotImplemented) of _unitary_/_mixture_/_apply_unitary_ before using a result')
     ctx.decided.append('C04.g stored control values are read element-wise only when they are known to be a ProductOfSums')
@@ -684,3 +686,46 @@ def control_values_are_ints_rule(ctx, rid='C04.i'):
                    f'`{ast.unparse(par.get(raw[0], raw[0]))}` stores the caller\'s value `{raw[0].id}` as it came: a bool stays a bool and is later used as a numpy mask', ci.mod.rel, st.lineno)
     if n == 0:
         raise AnalysisError('no control-values constructor stores values taken from its data parameter')
+
+
+# ---------------------------------------------------------------------------------------------------------------------
+# C04.j  A gate that takes its size from a wrapped gate also has to take its *dimensions* from it: Gate._qid_shape_
+# defaults to (2,) * num_qubits(), while _unitary_ / _decompose_ / _kraus_ built from the wrapped gate have its dimensions.
+def wrapper_shape_rule(ctx, rid='C04.j'):
+    repo = ctx.repo
+    ctx.rule(rid, 'dimension delegation: a Gate class whose num_qubits / _num_qubits_ / _qid_shape_ reads a field holding a gate handed to the constructor defines _qid_shape_ and reads '
+             'that field there - with the default shape (2,) * n the qid shape says qubits where the matrix built from the wrapped gate has its dimensions '
+             '(ParallelGate(XPowGate(dimension=3), 2): shape (2, 2), matrix 9x9)', floor=3, style='COH')
+    gate = repo.cls('cirq.ops.raw_types.Gate')
+    n = 0
+    for ci in sorted(repo.subclasses(gate), key=lambda c: c.qual):
+        if ci.mod.rel.endswith('_test.py') or '/testing/' in ci.mod.rel or '/contrib/' in ci.mod.rel:
+            continue
+        init = ci.methods.get('__init__')
+        if init is None:
+            continue
+        gparams = [a.arg for a in init.args.args + init.args.kwonlyargs if a.annotation is not None
+                   and ast.unparse(a.annotation).replace("'", '').replace('"', '').split('.')[-1] == 'Gate']
+        if not gparams:
+            continue
+        p2f = F.init_param_to_field(repo, ci)
+        flds = set()
+        for p in gparams:
+            flds |= set(p2f.get(p, ()))
+        if not flds:
+            continue
+        sizing = [ci.methods[m] for m in ('num_qubits', '_num_qubits_', '_qid_shape_') if m in ci.methods]
+        reads = set()
+        for fn in sizing:
+            reads |= {F.norm_field(repo, ci, f.lstrip('_')) for f in F.self_reads(repo, ci, fn, depth=2)} | set(F.self_reads(repo, ci, fn, depth=2))
+        nf = {F.norm_field(repo, ci, f.lstrip('_')) for f in flds} | flds
+        if not (reads & nf):
+            continue
+        n += 1
+        qs = ci.methods.get('_qid_shape_')
+        ok = qs is not None and bool(({F.norm_field(repo, ci, f.lstrip('_')) for f in F.self_reads(repo, ci, qs, depth=2)} | set(F.self_reads(repo, ci, qs, depth=2))) & nf)
+        ctx.ob(rid, f'{ci.qual}:_qid_shape_', ok, '' if ok else
+               f'the class sizes itself from the wrapped gate ({sorted(flds)}) but ' + ('defines no _qid_shape_' if qs is None else '_qid_shape_ does not look at it') +
+               ': a wrapped qudit gate is reported with qubit dimensions', ci.mod.rel, (qs or ci.node).lineno)
+    if n == 0:
+        raise AnalysisError('no gate wrapper found')
